@@ -15,6 +15,11 @@ theorem verdict : (classify Generated.factsC29).Sound (Holds (cfgOf Generated.fa
 #print axioms name_roundtrip_v3
 #print axioms scan_v3
 #print axioms name_roundtrip_v2_fallback
+#print axioms Hv.Storage.compaction_keeps_name
+#print axioms compacted_v3
+#print axioms compacted_v2
+#print axioms Hv.Storage.listing_spec
+#print axioms listing_exact
 #print axioms holds_of_good
 #print axioms holds_partial
 #print axioms longName_truncates
